@@ -94,6 +94,17 @@ func TestC06(t *testing.T) {
 	defer st.End()
 	rapid.Check(t, func(rt *rapid.T) {
 		sc := genScript(rt, profData)
+		if rapid.IntRange(0, 5).Draw(rt, "flood") == 0 {
+			// many datagrams reach one side before its handshake is over
+			side := rapid.IntRange(0, 1).Draw(rt, "floodSide")
+			at := rapid.IntRange(0, min(len(sc.Events), 6)).Draw(rt, "floodAt")
+			var flood []Event
+			for i, n := 0, rapid.IntRange(17, 48).Draw(rt, "floodN"); i < n; i++ {
+				m := MsgData(SpinePayload(1-side, 2000+i))
+				flood = append(flood, Event{K: EvInject, S: side, N: 2000 + i, M: m, T: show(m)})
+			}
+			sc.Events = append(sc.Events[:at:at], append(flood, sc.Events[at:]...)...)
+		}
 		tr := execute(t, sc)
 		if tr.Inconclusive != "" {
 			st.AddInconclusive()
